@@ -50,7 +50,7 @@ def _on_alarm(signum, frame):
     raise CaseTimeout()
 
 
-CASE_TIMEOUT = float(os.environ.get('VERIF_CASE_TIMEOUT', '400'))  # (wall clock on a possibly loaded machine: generous; the slowest cases take 5-20 s on an idle one)
+CASE_TIMEOUT = float(os.environ.get('VERIF_CASE_TIMEOUT', '400'))  # (thorough tier; the quick tier uses 150 s.  Wall clock on a possibly loaded machine: generous - the slowest cases take 5-20 s on an idle one)
 
 
 def main(argv=None):
@@ -131,7 +131,7 @@ def main(argv=None):
                 # watchdog per case (a wall-clock limit is never a verdict: a case that runs into it is counted and makes the run
                 # inconclusive unless a violation was observed elsewhere; without it one diverging computation - e.g. a propagator
                 # fed with an exploding state - would stall the whole shard and hide what the other cases show)
-                signal.setitimer(signal.ITIMER_REAL, CASE_TIMEOUT, 5.0)  # (repeats: the library has bare except clauses that could swallow one firing)
+                signal.setitimer(signal.ITIMER_REAL, CASE_TIMEOUT if (os.environ.get('VERIF_CASE_TIMEOUT') or a.tier != 'quick') else 150.0, 5.0)  # (repeats: the library has bare except clauses that could swallow one firing)
                 try:
                     if params is not None:
                         wl.fn(ctx, rng, idx, params[idx])
